@@ -5,6 +5,7 @@ package props
 import (
 	"bytes"
 	"fmt"
+	"slices"
 	"strings"
 	"testing"
 
@@ -60,9 +61,14 @@ func validDNA(s []byte) bool {
 	return true
 }
 
-func checkC14(c C14Case, o *Obs) error {
+func checkC14(c C14Case, o *Obs) (err error) {
 	// either an exact-capacity slice (nil when empty) or a window with valid bases behind it
 	seq := window(c.Seq, (len(c.Seq)+len(c.Dst)+c.Cut+c.Spare)%2 == 0)
+	defer func() {
+		if err == nil {
+			err = windowIntact(seq)
+		}
+	}()
 	seqCopy := bytes.Clone(seq)
 	o.Class("kind:" + c.Kind)
 	switch c.Kind {
@@ -130,6 +136,28 @@ func checkC14(c C14Case, o *Obs) error {
 			var direct []byte
 			if p := catch(func() { direct = sequtil.Translate(nil, sub) }); p != nil || !bytes.Equal(direct, got[i]) {
 				return fmt.Errorf("frame %d of %q = %q but Translate of the trimmed suffix = %q (panic %v)", i, seq, got[i], direct, p)
+			}
+		}
+		// results belong to the caller: they survive a later call on another sequence
+		{
+			first := [3][]byte{}
+			var held [3][]byte
+			if p := catch(func() { held = sequtil.TranslateReadingFrames(seq) }); p != nil {
+				return fmt.Errorf("a second TranslateReadingFrames(%q) panicked: %v", seq, p)
+			}
+			for i := range held {
+				first[i] = bytes.Clone(held[i])
+			}
+			other := bytes.Clone(seq)
+			slices.Reverse(other)
+			other = append(other, "GATTACA"...)
+			if p := catch(func() { sequtil.TranslateReadingFrames(other) }); p != nil {
+				return fmt.Errorf("TranslateReadingFrames(%q) panicked: %v", other, p)
+			}
+			for i := range held {
+				if !bytes.Equal(held[i], first[i]) {
+					return fmt.Errorf("frame %d of TranslateReadingFrames(%q), still held by the caller, changed from %q to %q when TranslateReadingFrames(%q) was called", i, seq, first[i], held[i], other)
+				}
 			}
 		}
 		return nil
